@@ -136,9 +136,15 @@ def extract(srcroot, gen_dir=None):
         for m in re.finditer(r"\bmutable\s+[\w:<>]+\s+(\w+)", src):
             mutables.append(m.group(1))
     # static locals
+    SYNC_TYPES = re.compile(r"\b(?:std::)?(?:mutex|recursive_mutex|shared_mutex|once_flag|atomic\w*|condition_variable)\b")
+    objects = set()      # shared names of class type: a non-const member call on them may write
     for f in allf:
-        for m in re.finditer(r"\bstatic\s+(?!const\b|constexpr\b)[\w:<>\s\*&]+?\b(\w+)\s*(?:\[[^\]]*\])?\s*(=|;|\{|\()", f["body"]):
-            statics.append((f["name"], m.group(1)))
+        for m in re.finditer(r"\bstatic\s+(?!const\b|constexpr\b)([\w:<>\s\*&]+?)\b(\w+)\s*(?:\[[^\]]*\])?\s*(=|;|\{|\()", f["body"]):
+            if SYNC_TYPES.search(m.group(1)):
+                continue                      # synchronisation primitives are not data
+            statics.append((f["name"], m.group(2)))
+            if not re.match(r"\s*(?:unsigned\s+|long\s+)*(?:double|int|float|bool|size_t|char)\s*$", m.group(1)):
+                objects.add(m.group(2))
     shared = sorted(gvars | set(n for _, n in statics) | set(mutables))
     simple_names = set(f["simple"] for f in allf)
     # per function: writes, reads, calls
@@ -151,6 +157,13 @@ def extract(srcroot, gen_dir=None):
                     f["gwrites"].add(g)
                 else:
                     f["writes"].add(g)
+            if g in objects:
+                # a member call on a shared object of class type (its constness is not visible lexically): counted as a write
+                for m in re.finditer(r"\b%s\b\s*(?:\.|->)\s*\w+\s*\(" % re.escape(g), body):
+                    if any(a <= m.start() <= b for a, b in spans):
+                        f["gwrites"].add(g)
+                    else:
+                        f["writes"].add(g)
             if re.search(r"\b%s\b" % re.escape(g), body):
                 f["reads"].add(g)
         f["calls"] = set(c for c in re.findall(r"\b(\w+)\s*\(", body) if c in simple_names and c != f["simple"]) | \
